@@ -18,8 +18,8 @@ ANCHORS = [
       "_skip_useless_lines", "split_gpg_and_payload", "gpg_stripped_paragraph",
       "_key_part", "_single", "_multi", "_multidata", "_AutoDecoder"]),
 ]
-BUDGET = {"quick": 700, "thorough": 9000}
-SHARD = 60
+BUDGET = {"quick": 1200, "thorough": 15000}
+SHARD = 100
 RULE = ("histories of 1-40 operations (set, get, del, in, len, list, order_first/last/before/after incl. "
         "self-reference in another case and missing keys, sort_fields, copy, dump, dump+reparse) over the keys "
         "A a B b Cc cC D (a tenth of the histories: keys with non-ASCII cased letters, str.lower taken from the "
@@ -34,6 +34,9 @@ TRUSTED = [
     "tied to the code only by this correspondence",
     "str.lower() of the running interpreter for keys with non-ASCII letters (carried in each case); "
     "ASCII lower-casing otherwise (coq/Lib/PyStr.v ascii_lower)",
+    "the compact encoding of the observed frames (harness/props/c09.py _compact, asserted loss-free against its Python "
+    "twin _expand on every case; decoded in Coq by coq/Dict/Check.v decode_frames) and the byte-string literals "
+    "(escaped form of core.cq_str with raw line feeds, decoded by Lib.Dec.dec)",
     "Python dict semantics for __table/__dict (keys hashed and compared through _strI.str_lower) as an "
     "association list keyed by the lower-cased key (coq/Dict/Common.v)",
 ]
@@ -42,9 +45,12 @@ ASSUMPTIONS = [
     "strongly reachable from head_node through next_node, so the weak reference is never dead when followed",
     "garbage collection is not modelled: unlinked nodes stay in the model heap, unreachable",
     "values are str; _parsed (apt_pkg TagSection backing) is None; encoding utf-8; no `fields` filter; default strictness",
-    "the theorems' dump/parse cycle is over single-line values without surrounding blanks and keys without ':' or "
-    "white space that do not start with '#' (then dump+parse is the identity on the (key, value) list); the full "
-    "parser is C02's; the model's parser covers plain-text paragraphs without PGP armour",
+    "domain of the history theorems (coq/Dict/Check.v case_in_domain, a boolean condition on the inputs that is part "
+    "of `agree`, so every case of a passing run is inside it): the start values pass validate_input, a parsed start's "
+    "text parses to the listed fields, and every dump+reparse is applied to a paragraph on which dump-then-parse is the "
+    "identity (a theorem for plain field names and single-line values without surrounding blanks, Props/C09.v no. 5; "
+    "checked per case otherwise); the full parser is C02's, the model's parser covers plain-text paragraphs without "
+    "PGP armour",
     "sort_fields() is called with its default key (str.lower)",
 ]
 
@@ -301,19 +307,30 @@ def run_impl(case):
 # ---------------------------------------------------------------------------
 # Coq emitter
 
+def _s(x):
+    """a text literal of a case file: a byte-string literal (coq/Dict/Check.v bstr) in the escaped form of cq_str"""
+    # a line feed is written raw (1 byte instead of the 7 of its escape); Lib.Dec.dec maps any byte other than
+    # a backslash to itself
+    return cq_str(x).replace("\\00000a", "\n") + "%bs"
+
+
+def _strs(xs):
+    return cq_list([_s(x) for x in xs])
+
+
 def _pairs(its):
-    return cq_list(["(%s, %s)" % (cq_str(k), cq_str(v)) for k, v in its])
+    return cq_list(["(%s, %s)" % (_s(k), _s(v)) for k, v in its])
 
 
 def _emit_op(op):
     k, o = op["op"], cq_nat(op["o"])
     if k == "set":
-        return "XSet %s %s %s" % (o, cq_str(op["k"]), cq_str(op["v"]))
+        return "XSet %s %s %s" % (o, _s(op["k"]), _s(op["v"]))
     if k in ("before", "after"):
-        return "%s %s %s %s" % ("XBefore" if k == "before" else "XAfter", o, cq_str(op["k"]), cq_str(op["r"]))
+        return "%s %s %s %s" % ("XBefore" if k == "before" else "XAfter", o, _s(op["k"]), _s(op["r"]))
     one = {"get": "XGet", "del": "XDel", "in": "XIn", "first": "XFirst", "last": "XLast"}
     if k in one:
-        return "%s %s %s" % (one[k], o, cq_str(op["k"]))
+        return "%s %s %s" % (one[k], o, _s(op["k"]))
     zero = {"len": "XLen", "iter": "XIter", "sort": "XSort", "copy": "XCopy", "reparse": "XReparse", "dump": "XDump"}
     return "%s %s" % (zero[k], o)
 
@@ -322,26 +339,80 @@ def _emit_out(out):
     if "none" in out:
         return "YNone"
     if "str" in out:
-        return "(YStr %s)" % cq_str(out["str"])
+        return "(YStr %s)" % _s(out["str"])
     if "bool" in out:
         return "(YBool %s)" % cq_bool(out["bool"])
     if "nat" in out:
         return "(YNat %s)" % cq_nat(out["nat"])
     if "keys" in out:
-        return "(YKeys %s)" % cq_strs(out["keys"])
+        return "(YKeys %s)" % _strs(out["keys"])
     return "(YErr %s)" % out["err"]
 
 
-def _emit_frame(f):
-    v = f["view"]
-    if "ok" in v:
-        w = v["ok"]
-        view = "(Ok (mkV %s %s %s %s))" % (_pairs(w["items"]), cq_nat(w["len"]),
-                                           cq_list([cq_bool(b) for b in w["in"]]), cq_str(w["dump"]))
+def _compact(frames):
+    """Compact form of the observed frames (coq/Dict/Check.v decode_frames): only the paragraphs whose items differ
+    from the previous frame (or are new) are kept; a view equal to the previous frame's becomes None; view items equal
+    to an entry of the frame's `all` become a reference; the membership answers become a bit mask."""
+    out, prev_all, prev_view = [], [], None
+    for f in frames:
+        v = f["view"]
+        if prev_view is not None and v == prev_view:
+            view = None
+        elif "ok" in v:
+            w = v["ok"]
+            same = [j for j, x in enumerate(f["all"]) if "ok" in x and x["ok"] == w["items"]]
+            view = {"ok": {"items": ("same", same[0]) if same else ("list", w["items"]), "len": w["len"],
+                           "mask": sum(1 << i for i, b in enumerate(w["in"]) if b), "dump": w["dump"]}}
+        else:
+            view = {"err": v["err"]}
+        upd = [(j, x) for j, x in enumerate(f["all"]) if not (j < len(prev_all) and prev_all[j] == x)]
+        out.append({"out": f["out"], "view": view, "n": len(f["all"]), "upd": upd})
+        prev_all, prev_view = f["all"], v
+    return out
+
+
+def _expand(compact, nalpha):
+    """Python twin of Check.decode_frames; used only to assert that _compact loses nothing."""
+    frames, prev_all, prev_view = [], [], None
+    for c in compact:
+        upd = dict(c["upd"])
+        al = [upd[j] if j in upd else prev_all[j] for j in range(c["n"])]
+        v = c["view"]
+        if v is None:
+            view = prev_view
+        elif "err" in v:
+            view = {"err": v["err"]}
+        else:
+            w = v["ok"]
+            kind, arg = w["items"]
+            view = {"ok": {"items": al[arg]["ok"] if kind == "same" else arg, "len": w["len"],
+                           "in": [bool(w["mask"] >> i & 1) for i in range(nalpha)], "dump": w["dump"]}}
+        frames.append({"out": c["out"], "view": view, "all": al})
+        prev_all, prev_view = al, view
+    return frames
+
+
+def _emit_compact(c):
+    v = c["view"]
+    if v is None:
+        view = "None"
+    elif "err" in v:
+        view = "(Some (Err %s))" % v["err"]
     else:
-        view = "(Err %s)" % v["err"]
-    al = cq_list(["(Ok %s)" % _pairs(x["ok"]) if "ok" in x else "(Err %s)" % x["err"] for x in f["all"]])
-    return "mkF %s %s %s" % (_emit_out(f["out"]), view, al)
+        w = v["ok"]
+        kind, arg = w["items"]
+        items = "(ISame %s)" % cq_nat(arg) if kind == "same" else "(IList %s)" % _pairs(arg)
+        view = "(Some (Ok (mkV %s %s %d%%N %s)))" % (items, cq_nat(w["len"]), w["mask"], _s(w["dump"]))
+    upd = ["(%s, %s)" % (cq_nat(j), "Ok %s" % _pairs(x["ok"]) if "ok" in x else "Err %s" % x["err"])
+           for j, x in c["upd"]]
+    return "mkF %s %s %s %s" % (_emit_out(c["out"]), view, cq_nat(c["n"]), cq_list(upd))
+
+
+def _emit_frames(frames, nalpha):
+    compact = _compact(frames)
+    if _expand(compact, nalpha) != frames:
+        raise RuntimeError("C09 emitter: compact frame encoding does not expand to the observation")
+    return [_emit_compact(c) for c in compact]
 
 
 def _case_keys(case):
@@ -363,12 +434,12 @@ def emit(case, obs):
     elif st["kind"] == "dict":
         start = "(ZDict %s)" % _pairs(st["items"])
     else:
-        start = "(ZParsed %s %s)" % (cq_str(st["text"]), _pairs(st["items"]))
+        start = "(ZParsed %s %s)" % (_s(st["text"]), _pairs(st["items"]))
     lower = [(k, k.lower()) for k in _case_keys(case) if k.lower() != _ascii_lower(k)]
     return "mk %s %s %s\n %s\n %s" % (
-        _pairs(lower), cq_strs(case["alpha"]), start,
+        _pairs(lower), _strs(case["alpha"]), start,
         cq_list([_emit_op(op) for op in case["ops"]]),
-        cq_list([_emit_frame(f) for f in obs["frames"]]))
+        cq_list(_emit_frames(obs["frames"], len(case["alpha"]))))
 
 
 # ---------------------------------------------------------------------------
